@@ -12,7 +12,7 @@ _S.run = _ns["run"]
 
 def _whole(start: int, stop: int, collect: bool, npop: int) -> bool:
     """
-    pre: 0 <= start <= 3 and 1 <= stop <= 3 and 0 <= npop <= 3
+    pre: 0 <= start <= 1 and 1 <= stop <= 2 and 0 <= npop <= 1
     post: _
     """
     return _h.run_whole(start, stop, collect, npop) is None
